@@ -1096,7 +1096,11 @@ func (f *Frame) havocLoopMem(li *loopInfo, st *execState) *Mem {
 		}
 		return m
 	}
-	return e.mc.HavocAll("loopmem")
+	before := st.mem
+	st2 := *st
+	st2.mem = e.mc.HavocAll("loopmem")
+	f.keepLocals(&st2, before, f.localsWrittenIn(li))
+	return st2.mem
 }
 
 func (f *Frame) backEdge(n *xnode, li *loopInfo, st *execState, cond *Term) {
@@ -1443,6 +1447,9 @@ func (ghostKey) Pos() token.Pos                { return token.NoPos }
 func (f *Frame) afterCall(st *execState, call *ssa.Call, v Val) {
 	f.atCallOrdinals()
 	name := calleeName(call)
+	if os.Getenv("GOVC_DEBUG") != "" {
+		fmt.Fprintf(os.Stderr, "afterCall %s ord=%d afters=%v\n", name, f.callOrd[call], f.con.Afters)
+	}
 	for _, ac := range f.con.Afters {
 		if ac.Callee != name || ac.Nth != f.callOrd[call] {
 			continue
@@ -1462,11 +1469,16 @@ func (f *Frame) afterCall(st *execState, call *ssa.Call, v Val) {
 }
 
 func calleeName(call *ssa.Call) string {
+	if call.Call.IsInvoke() {
+		return call.Call.Method.Name()
+	}
 	switch c := call.Call.Value.(type) {
 	case *ssa.Function:
 		return c.Name()
 	case *ssa.Builtin:
 		return c.Name()
+	case *ssa.Parameter:
+		return c.Name() // a call through a function-typed parameter is named after the parameter
 	}
 	if call.Call.IsInvoke() {
 		return call.Call.Method.Name()
@@ -1494,44 +1506,11 @@ func (f *Frame) atCallOrdinals() {
 // atCall processes "at call" clauses attached to this call instruction.
 func (f *Frame) atCall(st *execState, call *ssa.Call) {
 	e := f.e
-	var name string
-	switch c := call.Call.Value.(type) {
-	case *ssa.Function:
-		name = c.Name()
-	case *ssa.Builtin:
-		name = c.Name()
-	default:
-		if call.Call.IsInvoke() {
-			name = call.Call.Method.Name()
-		}
-	}
+	name := calleeName(call)
 	if name == "" {
 		return
 	}
-	// ordinal of this call among calls to the same callee, in block/instruction order
-	if f.callOrd == nil {
-		f.callOrd = map[*ssa.Call]int{}
-		cnt := map[string]int{}
-		for _, b := range f.fn.Blocks {
-			for _, ins := range b.Instrs {
-				if c, ok := ins.(*ssa.Call); ok {
-					var n string
-					switch cv := c.Call.Value.(type) {
-					case *ssa.Function:
-						n = cv.Name()
-					case *ssa.Builtin:
-						n = cv.Name()
-					default:
-						if c.Call.IsInvoke() {
-							n = c.Call.Method.Name()
-						}
-					}
-					cnt[n]++
-					f.callOrd[c] = cnt[n]
-				}
-			}
-		}
-	}
+	f.atCallOrdinals()
 	for _, ac := range f.con.Ats {
 		if ac.Callee != name {
 			continue
@@ -1893,3 +1872,73 @@ func (e *Engine) romLookup(a *Term) (*Term, bool) {
 }
 
 func (e *Engine) romFallback() *Term { return e.tb.ArrVar("rom!oob") }
+
+// keepLocals: an unknown callee (or an unannotated loop) cannot touch the
+// function's non-escaping local variables (go/ssa marks them Heap == false:
+// their address never leaves the function). After memory has been havoc'd as
+// a whole, their contents are restored from the memory before. skip lists
+// locals that must not be restored (written in the loop being cut).
+func (f *Frame) keepLocals(st *execState, before *Mem, skip map[*ssa.Alloc]bool) {
+	e := f.e
+	for _, b := range f.fn.Blocks {
+		for _, ins := range b.Instrs {
+			a, ok := ins.(*ssa.Alloc)
+			if !ok || a.Heap || skip[a] {
+				continue
+			}
+			pv, ok := st.env[a]
+			if !ok {
+				continue
+			}
+			et := a.Type().Underlying().(*types.Pointer).Elem()
+			sz := sizes.Sizeof(et)
+			if sz <= 0 || sz > 4096 {
+				continue
+			}
+			st.mem = e.mc.Region(st.mem, pv.(Scalar).T, e.tb.ConstU(uint64(sz), 64), before)
+		}
+	}
+}
+
+// localsWrittenIn: local allocations that some store in the loop body may
+// target (the store address is derived from the allocation).
+func (f *Frame) localsWrittenIn(li *loopInfo) map[*ssa.Alloc]bool {
+	out := map[*ssa.Alloc]bool{}
+	var root func(v ssa.Value, depth int) *ssa.Alloc
+	root = func(v ssa.Value, depth int) *ssa.Alloc {
+		if depth > 8 {
+			return nil
+		}
+		switch x := v.(type) {
+		case *ssa.Alloc:
+			return x
+		case *ssa.FieldAddr:
+			return root(x.X, depth+1)
+		case *ssa.IndexAddr:
+			return root(x.X, depth+1)
+		case *ssa.Convert:
+			return root(x.X, depth+1)
+		case *ssa.ChangeType:
+			return root(x.X, depth+1)
+		case *ssa.Slice:
+			return root(x.X, depth+1)
+		}
+		return nil
+	}
+	unknown := false
+	for b := range li.body {
+		for _, ins := range b.Instrs {
+			if s, ok := ins.(*ssa.Store); ok {
+				if a := root(s.Addr, 0); a != nil {
+					out[a] = true
+				} else if _, isParam := s.Addr.(*ssa.Parameter); !isParam {
+					// a store through a computed pointer: it cannot reach a
+					// non-escaping local unless derived from it, which root() follows;
+					// pointers loaded from memory never point to such locals
+				}
+			}
+			_ = unknown
+		}
+	}
+	return out
+}
